@@ -3,7 +3,10 @@
 From Coq Require Import PeanoNat Arith Lia.
 From AV Require Import Base.Bytes Base.Outcome Hash.HashModel Tree.Heap Tree.Ops Tree.Script Tree.Inv
   Tree.InvProofsBase Tree.InvProofsCore Tree.InvProofsTree Tree.InvProofsPrim Tree.InvProofsFrame Tree.InvProofsChars
-  Tree.InvProofsChars5 Tree.InvProofsCreate Tree.InvEBase Tree.Load Tree.InvLoad Tree.InvProofsLoadBase.
+  Tree.InvProofsChars5 Tree.InvProofsCreate Tree.InvProofsRemove Tree.InvProofsFiles Tree.InvProofsNav Tree.InvProofsOrigins
+  Tree.InvProofsOrigins3 Tree.InvEBase Tree.Load Tree.InvLoad Tree.InvProofsLoadBase Tree.InvProofsLoadWalk
+  Tree.InvProofsLoadMerge Tree.InvProofsLoad.
+From AV Require Tree.LoadProofs Tree.LoadEffects.
 From AV Require Xml.Parser.
 Open Scope string_scope.
 Open Scope list_scope.
@@ -266,6 +269,148 @@ Proof.
   apply JOK_bind; [apply JOK_merge|intros _].
   apply JOK_bind; [apply JOK_ro; ro_tac|intros x2].
   apply JOK_modify_keep. intros n. repeat split.
+Qed.
+
+(* ------------------------------------------------------------------ Part 3: kill / drop and the three invariants *)
+(* every node stays allocated with its type *)
+Definition tkeep (w w' : world) : Prop :=
+  forall i n, w_nodes w i = Some n -> exists n', w_nodes w' i = Some n' /\ n_type n' = n_type n.
+Lemma tkeep_refl w : tkeep w w. Proof. intros i n H. eauto. Qed.
+Lemma tkeep_trans a b c : tkeep a b -> tkeep b c -> tkeep a c.
+Proof. intros H1 H2 i n H. destruct (H1 _ _ H) as (n1 & A & B). destruct (H2 _ _ A) as (n2 & A2 & B2). exists n2. split; auto. congruence. Qed.
+Lemma tkeep_nodes w w' : (forall x, w_nodes w' x = w_nodes w x) -> tkeep w w'.
+Proof. intros H i n Hn. rewrite H. eauto. Qed.
+Lemma tkeep_wset w i n n' : w_nodes w i = Some n -> n_type n' = n_type n -> tkeep w (wset w i n').
+Proof.
+  intros Hn Ht j nj Hj. destruct (N.eq_dec j i) as [->|Hne].
+  - rewrite nodes_wset_eq. exists n'. split; auto. congruence.
+  - rewrite nodes_wset_neq by auto. eauto.
+Qed.
+Lemma OriginsRef_keep w w' : osub w w' -> tkeep w w' -> OriginsRef T w -> OriginsRef T w'.
+Proof.
+  intros Hs Ht O re Hre. apply Hs in Hre. destruct (O _ Hre) as (n & Hn & Hr).
+  destruct (Ht _ _ Hn) as (n' & Hn' & E). exists n'. split; auto. congruence.
+Qed.
+
+Lemma kill_tkeep from keep w r wk : kill_unreachable from keep w = Val (r, wk) -> tkeep w wk /\ w_models wk = w_models w.
+Proof.
+  intros H. apply kill_spec in H as (_ & _ & _ & Hm & Hn). split; auto. intros i n Hi. rewrite Hn, Hi.
+  destruct (killedb from keep w i); cbn; eauto.
+Qed.
+Lemma kill_chars from keep w r wk : kill_unreachable from keep w = Val (r, wk) -> CharsLeaf T w -> CharsLeaf T wk.
+Proof.
+  intros H CL i n' Hn' Hc. apply kill_spec in H as (_ & _ & _ & _ & Hn). rewrite Hn in Hn'.
+  destruct (killedb from keep w i).
+  - destruct (w_nodes w i) as [n|]; [|discriminate]. cbn in Hn'. injection Hn' as <-.
+    unfold kids, kill. cbn. apply elems_cdata_only.
+  - eapply CL; eauto.
+Qed.
+Lemma kill_orph from keep w r wk :
+  kill_unreachable from keep w = Val (r, wk) -> NoOrphanP w ->
+  (forall c p, killedb from keep w c = false -> par w c p -> killedb from keep w p = false) -> NoOrphanP wk.
+Proof.
+  intros H O Hcl c p Hp. apply kill_spec in H as (_ & _ & _ & _ & Hn).
+  destruct Hp as (nc & Hnc & Hpc). rewrite Hn in Hnc.
+  destruct (killedb from keep w c) eqn:Kc.
+  - destruct (w_nodes w c); [|discriminate]. cbn in Hnc. injection Hnc as <-. discriminate Hpc.
+  - assert (Hp0 : par w c p) by (exists nc; auto). pose proof (Hcl _ _ Kc Hp0) as Kp.
+    destruct (O _ _ Hp0) as (np & Hnp & Hin). exists np. split; auto. rewrite Hn, Kp. exact Hnp.
+Qed.
+
+Lemma drop_file_keep f w r w' : drop_file f w = Val (r, w') ->
+  same_tree w w' /\ tkeep w w' /\ w_models w' = w_models w /\ (CharsLeaf T w -> CharsLeaf T w').
+Proof.
+  unfold drop_file. generalize (DEAD_FILE_BASE + w_next w) as d. intros d [= _ <-].
+  assert (Hsk : forall i, skel (mkWorld (fun i => option_map (rename_file f d) (w_nodes w i))
+                                      (w_next w) (removelast (w_files w)) (w_models w)) i = skel w i).
+  { intros i. unfold skel. cbn [w_nodes]. destruct (w_nodes w i) as [n|]; cbn; auto.
+    unfold rename_file. destruct (set_mem f (n_files n)); reflexivity. }
+  split; [repeat split; auto|]. split; [|split; [reflexivity|]].
+  - intros i n Hn. cbn [w_nodes]. rewrite Hn. cbn. eexists. split; [reflexivity|].
+    unfold rename_file. destruct (set_mem f (n_files n)); reflexivity.
+  - intros CL i n' Hn' Hc. cbn [w_nodes] in Hn'. destruct (w_nodes w i) as [n|] eqn:E; [|discriminate]. cbn in Hn'.
+    injection Hn' as <-. unfold rename_file in *.
+    destruct (set_mem f (n_files n)); exact (CL _ _ E Hc).
+Qed.
+
+(* ------------------------------------------------------------------ Part 4: the invariant for loads *)
+Definition RealInvL (w : world) : Prop := TreeInvL w /\ CharsLeaf T w /\ OriginsRef T w.
+
+(* the recorded references are elements of a reference type *)
+Definition ERefs (root : Parser.etree) (refs : list (list N * list nat)) : Prop :=
+  forall key pos sub, In (key, pos) refs -> et_at root pos = Some sub -> is_ref T (et_type sub) = Val true.
+
+Lemma NoOrphanP_nodes w w' : (forall x, w_nodes w' x = w_nodes w x) -> NoOrphanP w -> NoOrphanP w'.
+Proof.
+  intros Hn O c p (nc & Hc & Hp). rewrite Hn in Hc. destruct (O c p) as (np & Hnp & Hin); [exists nc; auto|].
+  exists np. rewrite Hn. auto.
+Qed.
+Lemma CharsLeaf_nodes w w' : (forall x, w_nodes w' x = w_nodes w x) -> CharsLeaf T w -> CharsLeaf T w'.
+Proof. intros Hn CL i n Hi. rewrite Hn in Hi. eapply CL; eauto. Qed.
+Lemma J_nodes w w' : (forall x, w_nodes w' x = w_nodes w x) -> J w -> J w'.
+Proof. intros Hn (O & CL). split; [eapply NoOrphanP_nodes|eapply CharsLeaf_nodes]; eauto. Qed.
+Lemma RefNode_tkeep w w' re : tkeep w w' -> RefNode T w re -> RefNode T w' re.
+Proof. intros Ht (n & Hn & Hr). destruct (Ht _ _ Hn) as (n' & Hn' & E). exists n'. split; auto. congruence. Qed.
+
+Lemma osp_fill_identifiables m t : forall l, osp (fill_identifiables m t l).
+Proof.
+  induction l as [|[key pos] l IH]; cbn [fill_identifiables]; [os_tac|].
+  destruct (it_at t pos); [|os_tac]. apply osp_bind; [os_tac|intros w0]. apply osp_bind; [os_tac|intros x].
+  destruct (ident_live w0 x key); [exact IH|]. apply osp_bind; [|intros _; exact IH].
+  unfold add_identifiable. apply osp_modify_model. intros y k l0 re Hk Hre. cbn in Hk. eauto.
+Qed.
+
+Lemma fill_refs_oref m t : forall l w r w',
+  (forall key pos e, In (key, pos) l -> it_at t pos = Some e -> RefNode T w e) ->
+  OriginsRef T w -> fill_references m t l w = Val (r, w') -> OriginsRef T w'.
+Proof.
+  induction l as [|[key pos] l IH]; intros w r w' Hall O H; cbn [fill_references] in H.
+  - apply wret_inv in H as (_ & ->). exact O.
+  - destruct (it_at t pos) as [e|] eqn:Ee; [|discriminate H].
+    apply wbind_inv in H as [(u & w1 & H1 & H2) | (er & H1 & _)].
+    2:{ unfold add_reference_origin in H1. apply modify_model_inv in H1 as (? & _ & [=] & _). }
+    assert (Hn1 : forall x, w_nodes w1 x = w_nodes w x).
+    { unfold add_reference_origin in H1. apply modify_model_inv in H1 as (x0 & _ & _ & ->). reflexivity. }
+    assert (O1 : OriginsRef T w1).
+    { intros re Hre. destruct (oap_add_reference_origin e True m key I _ _ _ H1 re Hre) as [Hin|(-> & _)].
+      - eapply RefNode_tkeep; [apply tkeep_nodes; exact Hn1|apply O; exact Hin].
+      - eapply RefNode_tkeep; [apply tkeep_nodes; exact Hn1|]. eapply Hall; [left; reflexivity|exact Ee]. }
+    eapply IH; [|exact O1|exact H2]. intros k p0 e0 Hin He0.
+    eapply RefNode_tkeep; [apply tkeep_nodes; exact Hn1|]. eapply Hall; [right; exact Hin|exact He0].
+Qed.
+
+(* the first load: the incoming root becomes the root of the model *)
+Lemma first_load_J m re fid w2 r wa :
+  (exists n, w_nodes w2 re = Some n /\ n_parent n = PNone) ->
+  (modify_node re (fun n => set_parent n (PModel m));;
+   modify_node re (fun n => set_files n (set_add fid (n_files n)));;
+   modify_model m (fun y => set_root y re))%W w2 = Val (r, wa) ->
+  (J w2 -> J wa) /\ tkeep w2 wa /\ osub w2 wa.
+Proof.
+  intros (n & Hn & Hpn) H.
+  bstep H u1 w3 E1; [|apply modify_node_wset in E1 as (? & _ & [=] & _)].
+  apply modify_node_wset in E1 as (n' & Hn' & _ & ->). rewrite Hn in Hn'. injection Hn' as <-.
+  bstep H u2 w4 E2; [|apply modify_node_wset in E2 as (? & _ & [=] & _)].
+  apply modify_node_wset in E2 as (n2 & Hn2 & _ & ->). rewrite nodes_wset_eq in Hn2. injection Hn2 as <-.
+  set (n1 := set_parent n (PModel m)) in *. set (n2 := set_files n1 _) in *.
+  set (w3 := wset w2 re n1) in *. set (w4 := wset w3 re n2) in *.
+  assert (Hn4 : forall x, w_nodes wa x = w_nodes w4 x /\ True).
+  { apply modify_model_inv in H as (x0 & _ & _ & ->). intros x. split; reflexivity. }
+  assert (Hos : osub w4 wa).
+  { eapply (osp_modify_model m (fun y => set_root y re)); [|exact H]. intros y k l re0 Hk Hre. cbn in Hk. eauto. }
+  split; [|split].
+  - intros (O & CL). apply (J_nodes w4); [intros x; apply Hn4|]. split.
+    + intros c p (nc & Hc & Hp). destruct (N.eq_dec c re) as [->|Hcr].
+      * unfold w4 in Hc. rewrite nodes_wset_eq in Hc. injection Hc as <-. discriminate Hp.
+      * unfold w4, w3 in Hc. rewrite !nodes_wset_neq in Hc by auto.
+        destruct (O c p) as (np & Hnp & Hin); [exists nc; auto|].
+        destruct (N.eq_dec p re) as [->|Hpr].
+        -- exists n2. split; [apply nodes_wset_eq|]. rewrite Hn in Hnp. injection Hnp as <-. exact Hin.
+        -- exists np. unfold w4, w3. rewrite !nodes_wset_neq by auto. auto.
+    + eapply CharsLeaf_wset; [eapply CharsLeaf_wset; [exact CL|exact Hn|split; auto]|apply nodes_wset_eq|split; auto].
+  - eapply tkeep_trans; [|apply tkeep_nodes; intros x; apply Hn4].
+    apply (tkeep_trans w2 w3 w4); [apply (tkeep_wset w2 re n n1 Hn eq_refl)|apply (tkeep_wset w3 re n1 n2 (nodes_wset_eq _ _ _) eq_refl)].
+  - eapply osub_trans; [|exact Hos]. apply osub_models. reflexivity.
 Qed.
 
 End Shape.
